@@ -103,10 +103,13 @@ func (c *Client) Backoff(err error) <-chan struct{} {
 func (c *Client) Ping(quit <-chan struct{}) error {
 	// install callback
 	done := make(chan error, 1)
+	c.pingMu.Lock()
 	select {
 	case c.pingAck <- done:
+		c.pingMu.Unlock()
 		break // OK
 	default:
+		c.pingMu.Unlock()
 		return fmt.Errorf("%w; PING unavailable", ErrMax)
 	}
 
@@ -114,10 +117,17 @@ func (c *Client) Ping(quit <-chan struct{}) error {
 	verifPoint("ping.installed")
 	if err := c.write(quit, packetPINGREQ); err != nil {
 		verifPoint("ping.writefail")
+		c.pingMu.Lock()
 		select {
-		case <-c.pingAck: // unlock
+		case ack := <-c.pingAck: // unlock
+			if ack != done {
+				// Done was picked up already, and
+				// another Ping took the slot since.
+				c.pingAck <- ack // restore
+			}
 		default: // picked up by unrelated pong
 		}
+		c.pingMu.Unlock()
 		if errors.Is(err, ErrSubmit) {
 			return fmt.Errorf("%w; PING in limbo", err)
 		}
@@ -129,10 +139,20 @@ func (c *Client) Ping(quit <-chan struct{}) error {
 		return err
 	case <-quit:
 		verifPoint("ping.quit")
+		c.pingMu.Lock()
 		select {
-		case <-c.pingAck: // unlock
+		case ack := <-c.pingAck: // unlock
+			if ack != done {
+				// Done was picked up already, and
+				// another Ping took the slot since.
+				c.pingAck <- ack // restore
+				c.pingMu.Unlock()
+				return <-done
+			}
+			c.pingMu.Unlock()
 			return fmt.Errorf("%w; PING not confirmed", ErrAbandoned)
 		default: // picked up in mean time
+			c.pingMu.Unlock()
 			return <-done
 		}
 	}
@@ -142,12 +162,14 @@ func (c *Client) onPINGRESP() error {
 	if len(c.peek) != 0 {
 		return fmt.Errorf("%w: PINGRESP with %d byte remaining length", errProtoReset, len(c.peek))
 	}
+	c.pingMu.Lock()
 	select {
 	case ack := <-c.pingAck:
 		close(ack)
 	default:
 		break // tolerates wandering pong
 	}
+	c.pingMu.Unlock()
 	return nil
 }
 
